@@ -13,14 +13,30 @@ use std::sync::mpsc;
 pub struct SlowChain {
     pub state: Vec<f64>,
     pub delay_us: u64,
+    /// transition number (1-based, 0 = never) whose resulting state carries `spike_val` in coordinate 1 for that one state
+    pub spike_at: usize,
+    pub spike_val: f64,
+    pub steps: usize,
+    pub saved: f64,
+}
+pub fn slow(state: Vec<f64>, delay_us: u64) -> SlowChain {
+    SlowChain { state, delay_us, spike_at: 0, spike_val: 0.0, steps: 0, saved: 0.0 }
 }
 impl MarkovChain<f64> for SlowChain {
     fn step(&mut self) -> &Vec<f64> {
         if self.delay_us > 0 {
             std::thread::sleep(std::time::Duration::from_micros(self.delay_us));
         }
+        if self.spike_at > 0 && self.steps == self.spike_at {
+            self.state[1] = self.saved; // the spike lasted for one state only
+        }
+        self.steps += 1;
         for (k, x) in self.state.iter_mut().enumerate() {
             *x += (k + 1) as f64;
+        }
+        if self.spike_at > 0 && self.steps == self.spike_at {
+            self.saved = self.state[1];
+            self.state[1] = self.spike_val;
         }
         &self.state
     }
@@ -59,9 +75,21 @@ fn reporter(c: &Value) -> Value {
     let delays = u64s(&c["delays"]);
     let (n, d) = (us(c, "n"), us(c, "d"));
     let mut s = SlowSampler {
-        chains: delays.iter().enumerate().map(|(i, dl)| SlowChain { state: vec![i as f64, 0.0], delay_us: *dl }).collect(),
+        chains: delays.iter().enumerate().map(|(i, dl)| slow(vec![i as f64, 0.0], *dl)).collect(),
     };
-    let mut plain = SlowSampler { chains: s.chains.iter().map(|c| SlowChain { state: c.state.clone(), delay_us: 0 }).collect() };
+    // a transient state whose f32 image is not finite (f64 beyond f32::MAX, or inf / NaN), during burn-in, on chosen chains
+    if let Some(sp) = c.get("spike").filter(|v| !v.is_null()) {
+        let at = sp["at"].as_u64().unwrap() as usize;
+        let val = f64::from_bits(sp["bits"].as_str().unwrap().parse::<u64>().unwrap());
+        for ch in arr(sp, "chains") {
+            let k = ch.as_u64().unwrap() as usize;
+            if k < s.chains.len() {
+                s.chains[k].spike_at = at;
+                s.chains[k].spike_val = val;
+            }
+        }
+    }
+    let mut plain = SlowSampler { chains: s.chains.iter().map(|c| SlowChain { delay_us: 0, ..c.clone() }).collect() };
     verif::start();
     let (sample, stats) = s.run_progress(n, d).expect("run_progress");
     let ev = verif::take();
@@ -115,8 +143,8 @@ fn worker(c: &Value) -> Value {
     let (n, d) = (us(c, "n"), us(c, "d"));
     let delay = c["delay_us"].as_u64().unwrap_or(0);
     let mode = strf(c, "drop");
-    let mut a = SlowChain { state: vec![1.0, 2.0, 3.0], delay_us: delay };
-    let mut b = SlowChain { state: vec![1.0, 2.0, 3.0], delay_us: 0 };
+    let mut a = slow(vec![1.0, 2.0, 3.0], delay);
+    let mut b = slow(vec![1.0, 2.0, 3.0], 0);
     let (tx, rx) = mpsc::channel();
     let mut msgs: Vec<u64> = vec![];
     let out = match mode {
